@@ -833,7 +833,15 @@ func (s *Script) appendOp(o *op, left, right any) (pb *precBuf) {
 		pb.buf = append(pb.buf, ' ')
 		pb.buf = append(pb.buf, o.name...)
 		pb.buf = append(pb.buf, ' ')
-		pb.buf = s.appendValue(pb.buf, right, o.prec)
+		if rpb, ok := right.(*precBuf); ok && o.prec == rpb.prec {
+			// Operators of the same precedence are evaluated left to right
+			// when parsed so the right side needs to be grouped.
+			pb.buf = append(pb.buf, '(')
+			pb.buf = append(pb.buf, rpb.buf...)
+			pb.buf = append(pb.buf, ')')
+		} else {
+			pb.buf = s.appendValue(pb.buf, right, o.prec)
+		}
 	}
 	return
 }
